@@ -517,6 +517,20 @@ def native_run(ctx):
 
 
 # =====================================================================================================================
+def no_return(ctx, ident, clause="", replay=None, fn=None):
+    """The symbolic run of a function found no normally returning path.  That is a violation only if the real code fails too: the obligation's run-time replay (the
+    real function on its seeded input family) decides.  If the real code returns there, the executor or a library model is what failed -- undecided, not an alarm."""
+    rep = None
+    try:
+        rep = replay({}) if replay is not None else None
+    except Exception as e:  # noqa
+        rep = {"reproduced": False, "observed": f"replay raised {e!r}"[:200]}
+    if rep and rep.get("reproduced"):
+        return ctx.prove(ident, [], z3.BoolVal(False), clause=clause, replay=replay, fn=fn)
+    ctx.outside_subset.append({"obligation": f"{ctx.prop}/{ident}", "reason": "no returning path in the symbolic run while the real code returns on the replay inputs (executor / model limitation)"})
+    return ctx.undecided(ident, "symbolic run found no returning path, real code returns on the replay inputs: executor or library-model limitation", clause)
+
+
 def build(ctx):
     ctx.level = "other"
     ctx.explanation = (
@@ -667,7 +681,7 @@ def build(ctx):
             """The constructor end to end (ordering step under a skip contract): duals, vertex on its three facets, membership, dual scaling."""
             res = I.explore(lambda I2, a, kw: I2.instantiate(WC, [farr(nv), farr(ev)], {}), pre=PRE)
             if len(res) != 1 or res[0].kind != "return":
-                ctx.prove(f"{lab}.__init__/{tag}/returns", [], z3.BoolVal(False), clause="the constructor returns normally on a bounded facet set",
+                no_return(ctx, f"{lab}.__init__/{tag}/returns", clause="the constructor returns normally on a bounded facet set",
                           replay=replay_for("constructs"), fn=f_init)
                 return
             r = res[0]
@@ -699,7 +713,7 @@ def build(ctx):
                             prove_eq(f"{lab}._populate_duals/ensures/scaling.dual/{tag}/d{i}{k}", list(H) + list(res2[0].pc), D2[i, k] * s, D[i, k],
                                      "energies * s (s > 0) give dual points / s", ("scaling",), f_dual, points, None)
                 else:
-                    ctx.prove(f"{lab}.__init__/ensures/scaling/{tag}/returns", [], z3.BoolVal(False), clause="the constructor returns on scaled energies", replay=replay_for("scaling"), fn=f_init)
+                    no_return(ctx, f"{lab}.__init__/ensures/scaling/{tag}/returns", clause="the constructor returns on scaled energies", replay=replay_for("scaling"), fn=f_init)
         ctx.attempt(f"{lab}.__init__/{tag}", whole, replay=replay_for("constructs"), fn=f_init)
 
         def duals_safety():
@@ -718,7 +732,7 @@ def build(ctx):
                 return I.explore(th, pre=PRE + DUAL + [s > 0])
             res = run(ev, dv)
             if len(res) != 1 or res[0].kind != "return" or res[0].value.fields["wulff_vertices"].shape != (len(simplices), 3):
-                ctx.prove(f"{lab}._extract_wulff_from_dual_mesh/{tag}/returns", [], z3.BoolVal(False), clause="returns one vertex per simplex",
+                no_return(ctx, f"{lab}._extract_wulff_from_dual_mesh/{tag}/returns", clause="returns one vertex per simplex",
                           replay=replay_for("constructs", "vertex_set"), fn=f_ext)
                 return
             r = res[0]
@@ -778,7 +792,7 @@ def build(ctx):
                             prove_eq(f"{lab}._extract_wulff_from_dual_mesh/ensures/scaling/{tag}/s{si}k{k}", list(H) + list(res2[0].pc), V2[si, k], s * V[si, k],
                                      "energies * s and dual points / s (s > 0, same hull combinatorics) give vertices * s", ("scaling",), f_ext, points, None)
                 else:
-                    ctx.prove(f"{lab}._extract_wulff_from_dual_mesh/ensures/scaling/{tag}/returns", [], z3.BoolVal(False), clause="returns on scaled input",
+                    no_return(ctx, f"{lab}._extract_wulff_from_dual_mesh/ensures/scaling/{tag}/returns", clause="returns on scaled input",
                               replay=replay_for("scaling"), fn=f_ext)
         ctx.attempt(f"{lab}._extract_wulff_from_dual_mesh/{tag}", modular, replay=replay_for("constructs"), fn=f_ext)
 
@@ -800,7 +814,7 @@ def build(ctx):
         res = I.explore(lambda I2, a, kw: I2.call(fv, [farr([[0, 0, 0]]), [list(l) for l in lists], farr([[0, 0, 1]])], {}))
         lab = "wulff.order_and_triangulate_polygons/ensures/fan.indices"
         if len(res) != 1 or res[0].kind != "return":
-            ctx.prove(lab + "/returns", [], z3.BoolVal(False), clause="returns for ordered polygons of 0, 2, 3..120 vertices", replay=replay_for("constructs", "closed"), fn=f_tri)
+            no_return(ctx, lab + "/returns", clause="returns for ordered polygons of 0, 2, 3..120 vertices", replay=replay_for("constructs", "closed"), fn=f_tri)
             return
         ordered, tris, fidx = res[0].value
         exp_t, exp_f = [], []
